@@ -324,10 +324,144 @@ def shared_deferred(fn):
     return out
 
 
+def temporary_entry_released(fn):
+    """P7: a marker put into a container that outlives the call (a
+    module-level name, an attribute of `self`) and taken out again further
+    down the same block - `_busy.add(k) ... work() ... _busy.remove(k)` -
+    stays there for ever when the work in between raises, unless the removal
+    sits in a `finally`.  The next call that looks the marker up then answers
+    for a state that no longer exists."""
+    out = []
+    locals_ = {n.id for n in _own_nodes(fn) if isinstance(n, ast.Name) and
+               isinstance(n.ctx, ast.Store)} | {a.arg for a in
+                                               fn.args.args}
+
+    def cont(e):
+        # container expression that outlives the call
+        if isinstance(e, ast.Name) and e.id not in locals_:
+            return e.id
+        if isinstance(e, ast.Attribute) and isinstance(e.value, ast.Name) \
+                and e.value.id == 'self':
+            return 'self.' + e.attr
+        return None
+
+    def put(st):
+        if isinstance(st, ast.Expr) and isinstance(st.value, ast.Call) and \
+                isinstance(st.value.func, ast.Attribute) and \
+                st.value.func.attr in ('add', 'append') and \
+                len(st.value.args) == 1:
+            c = cont(st.value.func.value)
+            return (c, ast.dump(st.value.args[0])) if c else None
+        if isinstance(st, ast.Assign) and len(st.targets) == 1 and \
+                isinstance(st.targets[0], ast.Subscript):
+            c = cont(st.targets[0].value)
+            return (c, ast.dump(st.targets[0].slice)) if c else None
+        return None
+
+    def take(st):
+        if isinstance(st, ast.Expr) and isinstance(st.value, ast.Call) and \
+                isinstance(st.value.func, ast.Attribute) and \
+                st.value.func.attr in ('remove', 'discard', 'pop') and \
+                len(st.value.args) >= 1:
+            c = cont(st.value.func.value)
+            return (c, ast.dump(st.value.args[0])) if c else None
+        if isinstance(st, ast.Delete) and len(st.targets) == 1 and \
+                isinstance(st.targets[0], ast.Subscript):
+            c = cont(st.targets[0].value)
+            return (c, ast.dump(st.targets[0].slice)) if c else None
+        return None
+
+    def may_raise(st):
+        for n in ast.walk(st):
+            if isinstance(n, ast.Raise):
+                return True
+            if isinstance(n, ast.Call) and not (
+                    isinstance(n.func, ast.Name) and n.func.id in (
+                        'id', 'len', 'isinstance', 'type', 'repr', 'str',
+                        'bool', 'hasattr', 'callable')):
+                return True
+        return False
+
+    def blocks(node):
+        for n in _own_nodes(node):
+            for f in ('body', 'orelse', 'finalbody'):
+                b = getattr(n, f, None)
+                if isinstance(b, list) and b and isinstance(b[0], ast.stmt):
+                    yield b
+        yield fn.body
+    seen = set()
+    for b in blocks(fn):
+        for i, st in enumerate(b):
+            k = put(st)
+            if k is None:
+                continue
+            for j in range(i + 1, len(b)):
+                if take(b[j]) == k:
+                    between = b[i + 1:j]
+                    if any(may_raise(x) for x in between) and \
+                            (st.lineno, k) not in seen:
+                        seen.add((st.lineno, k))
+                        out.append((st.lineno,
+                                    'temporary-entry-released:%s' % k[0],
+                                    'an entry is put into %s (line %d) and '
+                                    'taken out again at line %d, but what '
+                                    'runs in between can raise and the '
+                                    'removal is not in a `finally`: after '
+                                    'one failure the entry stays for the '
+                                    'life of the process and later calls '
+                                    'are answered for a state that is gone'
+                                    % (k[0], st.lineno, b[j].lineno)))
+                    break
+    return out
+
+
+def registered_before_complete(fn):
+    """P8: a constructor that enters `self` into a container other objects
+    look things up in (a class-level registry, a module-level table) and can
+    still `raise` afterwards publishes a half-built object: the caller gets
+    the exception, everybody else gets the object."""
+    if fn.name != '__init__':
+        return []
+    out = []
+    body = fn.body
+
+    def publishes(st):
+        for n in ast.walk(st):
+            if isinstance(n, ast.Assign) and len(n.targets) == 1 and \
+                    isinstance(n.targets[0], ast.Subscript) and \
+                    isinstance(n.value, ast.Name) and n.value.id == 'self':
+                return n.lineno, ast.unparse(n.targets[0].value)
+            if isinstance(n, ast.Call) and \
+                    isinstance(n.func, ast.Attribute) and \
+                    n.func.attr in ('append', 'add', 'setdefault') and \
+                    n.args and isinstance(n.args[-1], ast.Name) and \
+                    n.args[-1].id == 'self' and not (
+                        isinstance(n.func.value, ast.Attribute) and
+                        isinstance(n.func.value.value, ast.Name) and
+                        n.func.value.value.id == 'self' and False):
+                return n.lineno, ast.unparse(n.func.value)
+        return None
+    for i, st in enumerate(body):
+        pub = publishes(st)
+        if pub is None:
+            continue
+        later = [n for x in body[i + 1:] for n in ast.walk(x)
+                 if isinstance(n, ast.Raise)]
+        if later:
+            out.append((pub[0], 'registered-before-complete:%s' % pub[1],
+                        'the constructor enters the new object into %s '
+                        '(line %d) and can still raise afterwards (line %d): '
+                        'a construction that fails leaves a half-built '
+                        'object registered, and later look-ups are served '
+                        'with it' % (pub[1], pub[0], later[0].lineno)))
+    return out
+
+
 def scan_function(fn, shared=()):
     return search_loop_variable(fn) + stale_snapshot(fn) + \
         one_object_two_names(fn) + \
-        shallow_copy_of_shared_mutables(fn, shared) + shared_deferred(fn)
+        shallow_copy_of_shared_mutables(fn, shared) + shared_deferred(fn) + \
+        temporary_entry_released(fn) + registered_before_complete(fn)
 
 
 def pitfall_rules(ctx, pid):
@@ -408,6 +542,9 @@ def _control():
             'parse_from_template_ok': set(),
             'introspect_coalesced': {'shared-deferred'},
             'introspect_coalesced_direct': {'shared-deferred'},
+            'guarded_work': {'temporary-entry-released'},
+            '__init__': {'registered-before-complete'},
+            'guarded_work_finally': set(),
             'introspect_fanout': set(),
             'pick_guarded': set(), 'pick_else': set(), 'frame_fresh': set(),
             'parse_rule_ok': set()}
